@@ -17,7 +17,7 @@ for l in open(LOG):
     rows.setdefault(mid,[]).append((chk,rc,lab))
 out=["### 11.5 Seeded changes and which checks catch them\n",
 "%d changes to vnmakarov/yaep were written by independent sub-agents that saw only one property's text and a" % len(rows),
-"scratch worktree (five rounds; from round 4 on the agents were told that the obvious spots had been tried; exact",
+"scratch worktree (six rounds; from round 4 on the agents were told that the obvious spots had been tried; exact",
 "duplicates of a kept change were dropped, independent re-inventions with their own demonstration were kept).  I",
 "confirmed each in a scratch worktree of /repo HEAD: patch applies, the 120-test suite passes with it, the agent's",
 "demonstration exits 0 without and non-zero with the patch.  They are kept under seeded/<id>/ (patch.diff, demo.c,",
@@ -43,18 +43,20 @@ C14/C15, large inputs/grammars in C17, `empty' as an object-stack operation, a l
 C16 and deeper hash-table histories were added in response.  One miss was a bug of the checks themselves: hC01.c
 ignored the NEAR parameters (its NEAR jobs silently ran ALL(2)); found through C01b-1/C01b-2.
 
-Rounds 4-5 (33 changes, agents asked for less obvious spots): 17 were missed by the quick tier as it stood.  This
+Rounds 4-6 (42 changes, agents asked for less obvious spots): 21 were missed by the quick tier as it stood.  This
 time the misses were mostly *histories and sizes*: a second parse of the same object (contexts, rule-name copies
 and situation tables left over from the first), a definition read after another one had been rejected, settings
 changed after the definition, inputs with three repetitions of a phrase (goto cache), more than ten lookahead-2
-contexts, more than eight terminals, object-stack segments that are outgrown at once, a parse that runs out of
+contexts (and, in round 6, more than twenty), more than eight terminals (round 6: more than 63, i.e. terminal sets of
+two machine words), a description without any terminal, newlines between particular tokens of an erroneous
+description, a terminal with code 0, object-stack segments that are outgrown at once, a parse that runs out of
 memory with the cost flag on, an abstract node without children as the cheapest alternative.  Added in response:
-the REP input family, the second-parse mode, G35-G44, C09's level-at-definition variation, C10 family 5, C11's
+the REP input family, the second-parse mode, padding terminals, G35-G47, C11's layout mode for erroneous texts, C09's level-at-definition variation, C10 family 5, C11's
 history mode, C14's predefined histories / other grammar pools / released trees, C15's settings-across-parses
 scenarios, C17's big-grammar parse, C19's long object-stack histories, and 64-byte object-stack segments for C07,
 C08 and C12.  One weakening of my own was caught by re-running the sweep (C14-2 slipped through after the
-lookahead action of hC14 had been reordered).  Memory faults inside the library (C06-2, C07c-2, C15-2) are reported
-by C12 and state left behind in a grammar object (C04c-1, C08c-2, C12c-1) by C14, following the attribution rule
+lookahead action of hC14 had been reordered).  Memory faults inside the library (C06-2, C06d-2, C07c-2, C15-2) are reported
+by C12 and state left behind in a grammar object (C04c-1, C08c-2, C12c-1) by C14 and C02d-1's truncated input first by C15's token-code classes, now also by C02 on G46, following the attribution rule
 of 7.20; C03b-1 (a goto-cache change) is reported by C09's self-check of cached sets.  Two defects of the
 *unchanged* library surfaced on the way and were repaired (11.4: ec7866f through the thorough tier, ddc47a2 through
 the new C15 scenario after a sub-agent had noticed it while reading the source).
